@@ -35,7 +35,7 @@ ENGINE = "pyvc"
 TECHNIQUE = ("contract-based deductive verification: pyvc generates VCs from the AST of the real "
              "_parse_range/_range_size/Array2D._getitem_impl/wrappers and z3 discharges them for all sizes, keys and "
              "iterations (loop invariant + append-site obligations, callee contracts, proved spec lemmas); native "
-             "run-time contracts over a small scope as cross-check")
+             "run-time contracts over a small scope, and large arrays against nested Python lists, as cross-check")
 LEVEL_TEXT = ("proof: every clause of the statement is a postcondition of a sidecar contract on the real function and "
               "every generated obligation is discharged by z3 without bound on sizes, indices or slice triples. "
               "_getitem_impl is verified modularly against the contracts of _parse_range/_range_size, which are "
